@@ -19,21 +19,27 @@
 #define H_CANARY 16
 #endif
 #define H_MAXA 512
-static struct { unsigned char* p; size_t n; } h_tab[H_MAXA];
+static struct { unsigned char* p; size_t n; size_t cap; } h_tab[H_MAXA];
 static int h_canary_broken = 0;
+/* H_INPLACE=1: blocks have a capacity rounded up to 16 and realloc keeps the address whenever the
+ * new size fits (what a real allocator does for shrinking / small growth), so that anything keyed
+ * on the buffer ADDRESS sees in-place mutation; the bytes gained are poisoned, the canary follows
+ * the requested size.  Default: every realloc moves. */
+static int h_inplace = 0;
 
 static int h_find(void* p) {
   for (int i = 0; i < H_MAXA; i++) if (h_tab[i].p == (unsigned char*)p) return i;
   return -1;
 }
 static void* h_alloc(size_t n) {
-  unsigned char* p = malloc(n + H_CANARY + (n + H_CANARY == 0));
+  size_t cap = h_inplace ? ((n + 16) / 16) * 16 : n;
+  unsigned char* p = malloc(cap + H_CANARY + (cap + H_CANARY == 0));
   if (!p) return NULL;
   memset(p, 0xA5, n);
   memset(p + n, 0xC3, H_CANARY);
   int i = h_find(NULL);
   if (i < 0) { fprintf(stderr, "h_alloc: table full\n"); abort(); }
-  h_tab[i].p = p; h_tab[i].n = n;
+  h_tab[i].p = p; h_tab[i].n = n; h_tab[i].cap = cap;
   return p;
 }
 static int h_check(int i) {
@@ -50,6 +56,16 @@ static void h_free(void* p) {
   free(p);
 }
 static void* h_realloc(void* old, size_t n) {
+  if (old && h_inplace) {
+    int i = h_find(old);
+    if (i >= 0 && n <= h_tab[i].cap) {
+      if (!h_check(i)) h_canary_broken = 1;
+      if (n > h_tab[i].n) memset((unsigned char*)old + h_tab[i].n, 0xA5, n - h_tab[i].n);
+      memset((unsigned char*)old + n, 0xC3, H_CANARY);
+      h_tab[i].n = n;
+      return old;
+    }
+  }
   unsigned char* p = h_alloc(n);
   if (old) {
     int i = h_find(old);
@@ -83,6 +99,7 @@ static void* h_malloc(size_t n) { return h_alloc(n); }
 static char rbuf[MAXS];            /* the libc-maintained abstract string */
 static char argb[MAXS];
 static char tmpb[MAXS];
+static char frb[MAXS];
 
 static int hexval(char c) { return c <= '9' ? c - '0' : (c | 32) - 'a' + 10; }
 static size_t unhex(const char* h, char* out) {
@@ -94,11 +111,13 @@ static size_t unhex(const char* h, char* out) {
 static void phex(const unsigned char* p, size_t n) { for (size_t i = 0; i < n; i++) P("%02x", p[i]); }
 static const char* sgn(int c) { return c < 0 ? "lt" : c > 0 ? "gt" : "eq"; }
 
+static int h_stale = 0;     /* hash(s) right after the operation differed from hash_data over the reference bytes */
+
 /* state of the String under test after a step */
 static void dump(var s, const char* refout) {
   struct String* st = s;
   int i = h_find(st->val);
-  const char* flags[8]; int nf = 0;
+  const char* flags[12]; int nf = 0;
   size_t alloc = 0;
   if (i < 0) { P(";NOTOWNED;0;;%s;", refout); phex((unsigned char*)rbuf, strlen(rbuf)); P(";NOTOWNED"); return; }
   alloc = h_tab[i].n;
@@ -113,10 +132,22 @@ static void dump(var s, const char* refout) {
     if (len(s) != strlen(rbuf)) flags[nf++] = "LEN";
     if (strcmp(c_str(s), rbuf) != 0) flags[nf++] = "CSTR";
     if (!eq(s, $S(rbuf)) || cmp(s, $S(rbuf)) != 0) flags[nf++] = "EQ";
-    if (hash(s) != hash_data(rbuf, strlen(rbuf))) flags[nf++] = "HASHREF";
+    /* hash: s is the FIRST String hashed since the operation and the LAST one hashed before the
+       next (so a value remembered per buffer address across an in-place mutation shows); expected
+       values come from hash_data on the reference bytes, never from hashing another String first */
+    uint64_t want = hash_data(rbuf, strlen(rbuf));
+    if (h_stale) flags[nf++] = "HASHSTALE";
+    if (hash(s) != want) flags[nf++] = "HASHREF";
+    if (hash(s) != want) flags[nf++] = "HASHREPEAT";
     var cp = new_raw(String, $S(rbuf));
-    if (hash(s) != hash(cp) || !eq(cp, s)) flags[nf++] = "HASHCOPY";
+    if (hash(cp) != want || !eq(cp, s)) flags[nf++] = "HASHCOPY";
     del_raw(cp);
+    /* a fresh String with other contents, very likely at the address just released */
+    strcpy(frb, rbuf); if (frb[0]) frb[0] = (char)(frb[0] == '~' ? '!' : '~'); else strcpy(frb, "~");
+    var fr = new_raw(String, $S(frb));
+    if (hash(fr) != hash_data(frb, strlen(frb))) flags[nf++] = "HASHFRESH";
+    del_raw(fr);
+    if (hash(s) != want) flags[nf++] = "HASHAGAIN";
   }
   P(";%zu;", alloc);
   phex((unsigned char*)st->val, alloc);
@@ -143,7 +174,13 @@ static void one_case(char* line) {
     char* outp = out; char* routp = rout; char* big = NULL; char* rbig = NULL;
     strcpy(out, "ok"); strcpy(rout, "ok");
     if (strchr("acprmke", tok[0])) unhex(tok + 1, argb);
+    /* hash(s) directly before and directly after the operation, with nothing else hashed in between
+       (the try machinery itself looks its record up in a Table keyed by a String, i.e. hashes one):
+       a hash remembered per buffer address across an in-place mutation shows here */
+    volatile uint64_t h_after = 0; volatile int have_after = 0;
+    h_stale = 0;
     try {
+      (void)hash(s);
       switch (tok[0]) {
         case 'a': assign(s, $S(argb)); strcpy(rbuf, argb); break;
         case 'c': concat(s, $S(argb)); strcat(rbuf, argb); break;
@@ -218,7 +255,9 @@ static void one_case(char* line) {
           break; }
         default: strcpy(out, "BADOP");
       }
+      h_after = hash(s); have_after = 1;
     } catch (e) { strcpy(out, exn_name(e)); outp = out; }
+    if (have_after && h_after != hash_data(rbuf, strlen(rbuf))) h_stale = 1;
     P(" | %s", outp);
     if (big) free(big);
     dump(s, routp);
@@ -228,6 +267,9 @@ static void one_case(char* line) {
 }
 
 int main(int argc, char** argv) {
+#ifndef H_ASAN
+  if (getenv("H_INPLACE")) h_inplace = 1;
+#endif
   run_all_cases(one_case);
   return 0;
 }
